@@ -46,6 +46,7 @@ THEOREMS = [
     "AiuVerif.C20.hull_spec_by_sequence",
     "AiuVerif.C20.non_members_unchanged",
     "AiuVerif.C20.non_members_unchanged_by_sequence",
+    "AiuVerif.C20.outputs_classified",
     "AiuVerif.C20.summarize_total",
     "AiuVerif.C20.summarize_raises",
     "AiuVerif.C20.key_collision_merges",
